@@ -56,11 +56,12 @@ type Exec struct {
 	paths     int
 	maxPaths  int
 	inlined   map[string]bool
-	assumed   map[string]bool // external contracts used
-	havocked  map[string]bool // external calls without contract
-	rebound   map[string]bool // locals named in clauses that were re-bound through their fingerprint
+	assumed   map[string]bool               // external contracts used
+	havocked  map[string]bool               // external calls without contract
+	rebound   map[string]bool               // locals named in clauses that were re-bound through their fingerprint
 	loopClaim map[*ssa.BasicBlock]*LoopSpec // loop header -> the contract block assigned to it
-	entry     *State          // snapshot for old()
+	prop      string                        // the property being checked (tag-scoped requires clauses)
+	entry     *State                        // snapshot for old()
 	params    map[string]Value
 	loops     map[*ssa.Function]*loopInfo
 	retCount  int
@@ -80,6 +81,13 @@ func NewExec(w *World, fn *ssa.Function, spec *FuncSpec) *Exec {
 	return &Exec{w: w, top: fn, spec: spec, names: map[string]int{}, locIDs: map[string]*Term{}, locBack: map[string]*Loc{},
 		cloBack: map[string]*Closure{}, maxPaths: 4096, inlined: map[string]bool{}, assumed: map[string]bool{}, havocked: map[string]bool{}, rebound: map[string]bool{}, loopClaim: map[*ssa.BasicBlock]*LoopSpec{},
 		loops: map[*ssa.Function]*loopInfo{}, iterSites: map[*ssa.Function]int{}, exitBound: map[string]bool{}, iterSeen: map[int]bool{}, backing: map[string]*backingInfo{}}
+}
+
+// reqActive: a requires clause without tags is a precondition for every property; a tagged one restricts the inputs
+// only while one of its properties is being checked (e.g. "a certificate store is configured" for the no-panic
+// property C09, but not for C01, where acceptance without a store must be shown impossible rather than assumed away).
+func (x *Exec) reqActive(c *Clause) bool {
+	return len(c.Tags) == 0 || x.prop == "" || hasTag(c.Tags, x.prop)
 }
 
 func fnKey(fn *ssa.Function) string {
@@ -165,6 +173,9 @@ func (x *Exec) Run() (obls []*Obligation, err error) {
 	// requires
 	env := x.specEnv(nil)
 	for _, c := range x.spec.Requires {
+		if !x.reqActive(c) {
+			continue
+		}
 		t := x.evalBool(&EvalCtx{x: x, st: s, old: x.entry, env: env, sf: funcHome[x.spec]}, c.Expr)
 		s.assume(t)
 	}
